@@ -104,6 +104,8 @@ def build_system(sd, types=None):
         if sd['diam'][t] is not None: s.diameter[fresh(types[t])] = sd['diam'][t]
     for t, v in enumerate(sd['diam']):
         if v is not None and t not in order: s.diameter[types[t]] = v
+    for (i, j, v) in sd.get('sigma_override', []):
+        s.diameter.sigma[types[i], types[j]] = v          # a non-additive contact distance written into the documented sigma table
     prs = [sd['pairs'].get('%d%d' % (i, j), {}) for (i, j) in pairs_of(n)]
     for key, mk, table in (('pot', mk_pot, s.potential), ('clo', mk_clo, s.closure), ('om', mk_om, s.omega)):
         specs = [pr.get(key) for pr in prs]
@@ -157,6 +159,8 @@ def sys_lines(sd):
         if v is not None: out.append('sys.dens %s %d' % (f2h(v), t))
     for t, v in enumerate(sd['diam']):
         if v is not None: out.append('sys.diam %s %d' % (f2h(v), t))
+    for (i, j, v) in sd.get('sigma_override', []):
+        out.append('sys.sigma %d %d %s' % (i, j, f2h(v)))
     for (i, j) in pairs_of(n):
         pr = sd['pairs'].get('%d%d' % (i, j), {})
         if pr.get('pot') is not None:
@@ -350,6 +354,21 @@ def gen_system(rng, maxn=3, maxL=32, soft_ok=True, distinct=True):
         sd['share' if how < 0.2 else 'setunset'] = True
     return sd
 
+def add_sigma_override(rng, sd):
+    """a non-additive mixture: one cross contact distance written into the documented sigma table (diameter.sigma[a,b] = v) after the
+    diameters were set.  Opt-in: only suites that take sigma from `pair_sigma` may use it."""
+    n = sd['n']
+    if n < 2: return sd
+    i = rng.randrange(n - 1); j = rng.randrange(i + 1, n); dr = sd['dom'][1]
+    sd['sigma_override'] = [[i, j, grid_multiple(rng, dr, 0.4, 1.8)]]
+    return sd
+
+def pair_sigma(sd, i, j):
+    """the contact distance of pair (i, j) as the System holds it: the mean diameter unless the sigma table was overridden"""
+    for (a, b, v) in sd.get('sigma_override', []):
+        if (a, b) in ((i, j), (j, i)): return v
+    return (sd['diam'][i] + sd['diam'][j]) / 2
+
 def scale_length(sd, u):
     """the same system with every length multiplied by u (metres instead of reduced units ...): spacing, diameters, contact distances, ranges,
     cut-offs and bond lengths x u, number densities / u^3; tabulated omegas are per grid index and stay.  Dimensionless results are unchanged,
@@ -367,6 +386,7 @@ def scale_length(sd, u):
             if P[0] in ('ljcut', 'ljshift'): P[3] = P[3] * u
         O = pr.get('om')
         if O is not None and O[0] in ('gauss', 'fjc', 'ring'): O[2] = O[2] * u
+    if out.get('sigma_override'): out['sigma_override'] = [[i, j, v * u] for (i, j, v) in out['sigma_override']]
     out['lunit'] = u
     return out
 
